@@ -3,14 +3,14 @@ reg("C19",
     anchor_files=["src/hgraph/types/operator_dispatch.cpp", "include/hgraph/types/operator_dispatch.h", "src/hgraph/types/type_pattern.cpp",
                   "include/hgraph/types/type_pattern.h", "include/hgraph/types/type_resolution.h", "include/hgraph/types/wiring_observer.h"],
     needs_tus=["src/hgraph/types/operator_dispatch.cpp", "src/hgraph/types/type_pattern.cpp"],
-    quick=dict(defs=dict(FAMMAX=3, ARITIES=3, POOL1="0x3fffff", POOL2="0xffff", ARGS1="0xcbf", ARGS2="0xbdf", SZMAX=4),
+    quick=dict(defs=dict(FAMMIN=1, FAMMAX=3, ARITIES=3, POOL1="0x97dfd", POOL2="0xb3ff", ARGS1="0x83f", ARGS2="0xbdf", SZMAX=4),
                symx=dict(shards=16, **{"max-wall": 900})),
-    thorough=dict(defs=dict(FAMMAX=4, ARITIES=3, POOL1="0x3fffff", POOL2="0xffff", ARGS1="0x1fff", ARGS2="0x1fff", SZMAX=6),
-                  symx=dict(shards=16, **{"max-wall": 3000, "shard-depth": 8})),
+    thorough=dict(defs=dict(FAMMIN=1, FAMMAX=3, ARITIES=3, POOL1="0x3fffff", POOL2="0xffff", ARGS1="0x1fff", ARGS2="0x1fff", SZMAX=6),
+                  symx=dict(shards=16, **{"max-wall": 3000})),
     reach=["end", "winner", "winner_among_several_matching", "winner_among_several_matching_3_orders", "no_match_error", "ambiguity_error",
            "single_match", "single_reject", "ts_and_scalar_vars_bound", "size_var_bound", "default_used", "symbolic_rank_member_matches",
            "documented_order_pair_checked"],
-    bounds="every family of 1..FAMMAX candidates out of a pool of 22 one-argument and 16 two-argument hand-built OperatorImpl (concrete TS leaf, TS[int] uncollapsed, TS[T], "
+    bounds="every family of FAMMIN..FAMMAX candidates out of the pool selected by the POOL1/POOL2 masks (quick: 15 one-argument and 13 two-argument candidates, thorough: all 22 and 16) of hand-built OperatorImpl (concrete TS leaf, TS[int] uncollapsed, TS[T], "
            "constrained scalar var, bare V, constrained V, TSL with symbolic fixed size / size variable / constrained size variable with symbolic accepted size / ts-var element, "
            "TSD[K,V], TSD[K,TS[T]], TSD[K,TSL[TS[T],N]], REF[TS[T]], SIGNAL, TSB schema variable, TSW with symbolic period/min-period, TSW any-window, a defaulted scalar parameter, "
            "a **kwargs collector whose pack pattern has a symbolic fixed size (symbolic effective rank), an unbindable output variable; repeated / independent ts, scalar and size "
@@ -24,6 +24,22 @@ reg("C19",
                  "'matches' is defined by an independent reference unifier in the harness (REF transparency and SIGNAL as documented in type_pattern.h); promotion of a plain value to a const "
                  "time-series input is treated as unspecified for completeness (soundness and rank order are still checked)",
                  "the effective rank of a member is read from the WiringResolutionEvent of resolving it alone under the same arguments"],
+    )
+
+reg("C19",
+    name="C19_resolve_fam4", src="harness/C19_resolve.cpp",
+    anchor_files=["src/hgraph/types/operator_dispatch.cpp", "include/hgraph/types/operator_dispatch.h", "src/hgraph/types/type_pattern.cpp",
+                  "include/hgraph/types/type_pattern.h", "include/hgraph/types/type_resolution.h", "include/hgraph/types/wiring_observer.h"],
+    needs_tus=["src/hgraph/types/operator_dispatch.cpp", "src/hgraph/types/type_pattern.cpp"],
+    quick=dict(defs=dict(FAMMIN=4, FAMMAX=4, ARITIES=3, POOL1="0x860d5", POOL2="0x303f", ARGS1="0x82d", ARGS2="0x107", SZMAX=4),
+               symx=dict(shards=16, **{"max-wall": 900})),
+    thorough=dict(defs=dict(FAMMIN=4, FAMMAX=4, ARITIES=3, POOL1="0x869fd", POOL2="0x31bf", ARGS1="0xcbf", ARGS2="0xbdf", SZMAX=6),
+                  symx=dict(shards=16, **{"max-wall": 3000})),
+    reach=["end", "winner", "winner_among_several_matching_3_orders", "no_match_error", "ambiguity_error", "single_match", "single_reject", "four_member_family_24_orders"],
+    bounds="same harness as C19_resolve restricted to families of exactly 4 candidates (all 24 registration orders inside one path) over a sub-pool "
+           "(quick: 8 one-argument x 5 schemas and 8 two-argument x 4 tuples; thorough: 12 x 9 and 10 x 10); numeric pattern parameters symbolic in [0,SZMAX]",
+    outside="as C19_resolve; families larger than 4",
+    assumptions=["as C19_resolve"],
     )
 
 META = dict(
